@@ -203,7 +203,7 @@ class Evaluator:
         return [s]
 
     def st_FunctionDef(self, st: ast.FunctionDef, s: State):
-        fi = FunctionInfo(st.name, f'{self.fn.qualname}.<locals>.{st.name}', st, self.module,
+        fi = FunctionInfo(st.name, f'{self.fn.qualname}.<locals>.{st.name}@{st.lineno}', st, self.module,
                           self.fn.cls, 'function', parent=self.fn)
         self.local_fns[fi.qualname] = fi
         s.env[st.name] = ('localfn', fi.qualname, _freeze_env(s.env, _free_names(st)))
